@@ -20,13 +20,17 @@ import (
 func (vm *VM) runFunc(fn *Function, vars []reflect.Value) error {
 	vm.fn = fn
 	vm.vars = vars
+	if vm.main {
+		// When the main goroutine ends, stop the other goroutines.
+		defer vm.env.stopGoroutines()
+	}
 	var stop chan struct{}
-	if vm.env.doneChan != nil {
+	if ctx := vm.env.ctx; ctx != nil && ctx.Done() != nil {
 		stop = make(chan struct{})
 		go func() {
 			select {
 			case <-stop:
-			case <-vm.env.ctx.Done():
+			case <-ctx.Done():
 				atomic.StoreInt32(&vm.env.done, 1)
 			}
 		}()
@@ -49,7 +53,13 @@ func (vm *VM) runFunc(fn *Function, vars []reflect.Value) error {
 	}
 	if stop != nil {
 		close(stop)
-		if atomic.LoadInt32(&vm.env.done) == 1 {
+	}
+	if atomic.LoadInt32(&vm.env.done) == 1 {
+		// A goroutine ended with an error or the context has been canceled.
+		if vm.env.failed() != nil {
+			return vm.env.failed()
+		}
+		if stop != nil {
 			return vm.env.ctx.Err()
 		}
 	}
